@@ -1197,6 +1197,11 @@ impl<D: Distance> Writer<D> {
     }
 
     fn delete_tree(&self, wtxn: &mut RwTxn, node: NodeId) -> Result<()> {
+        // the leafs are shared between the trees, we MUST NOT delete them.
+        // They may also have been deleted by the user already, so we must not try to fetch them.
+        if node.mode == NodeMode::Item {
+            return Ok(());
+        }
         let key = Key::new(self.index, node);
         match self.database.get(wtxn, &key)?.ok_or(Error::missing_key(key))? {
             // the leafs are shared between the trees, we MUST NOT delete them.
